@@ -306,6 +306,12 @@ func genC32(seed uint64, tier string) any {
 			if r.Bool() {
 				n = 0
 			}
+			if r.Chance(1, 3) {
+				// the PSK-offering ClientHello is answered by a HelloRetryRequest whose cipher suite a man in the middle
+				// replaces by another one the client offered (possibly with another hash than the ticket's)
+				sc.Client.Curves, sc.Server.Curves = []uint16{29, 23}, []uint16{23}
+				sc.HSEdits = append(sc.HSEdits, hsEdit{Dir: 1, Type: 2, Op: "set", Ext: -2, Sel: 1, Val: []int{0x1302, 0x1301, 0x1303}[r.Intn(3)]})
+			}
 		}
 		if r.Chance(1, 8) {
 			sc.KeyUpdateBy = 1 + r.Intn(2)
@@ -363,7 +369,7 @@ func genC32(seed uint64, tier string) any {
 				if r.Chance(1, 2) {
 					e.Ext = []int{51, 43, 41, 13, 10, 16, 0, 45, 11, 5, 0xff01, 35}[r.Intn(12)]
 				}
-				e.Val = []int{0, 0, 1, 0xff, 0xffff, 0x0304, 0x0303, 7, 0xee, r.Intn(1 << 16)}[r.Intn(10)]
+				e.Val = []int{0, 0, 1, 0xff, 0xffff, 0x0304, 0x0303, 7, 0xee, r.Intn(1 << 16), 0x1301, 0x1302, 0x1303, 0xc02f, 0x002f}[r.Intn(15)]
 				sc.HSEdits = append(sc.HSEdits, e)
 			}
 		}
